@@ -360,18 +360,44 @@ def rule_tables(repo, chk):
 
 def rule_d_e(repo, chk):
     cls = repo.cls(NODE_PROTOCOL, 'Protocol')
-    s = need(_m(cls, 'send'), 'C19.d: Protocol.send missing')
+    entry = need(_m(cls, 'send'), 'C19.d: Protocol.send missing')
+    # the function that puts an event on the wire: the one that serialises it (send itself, or a helper it was moved into)
+    txf = [m for m in cls.methods.values() if any(call_name(c) == 'dump_event' for c in calls_in(m.node))]
+    need(txf, 'C19.d: no method of Protocol serialises events')
+    s = txf[0]
     chk.touch(s)
+    chk.touch(entry)
     g = s.cfg()
     ev = s.params[1]
     tx = [n for n in g.nodes if n.kind == 'stmt' and any(r == 'self' for r, _c in pat.method_calls(n.ast, '__send'))]
-    need(tx, 'C19.d: send() never transmits')
+    need(tx, 'C19.d: the serialising method never transmits')
     fw = 'self.__send_event_firewall'
-    passed = pat.test_edge(lambda t, pol: (pol == 'F' and src(t) == fw) or (pol == 'T' and src(t).startswith(f'{fw}({ev}')))
-    for n in tx:
-        q = pat.guarded_by(g, n, passed)
-        chk.ob('d', s.ref, 'an event is transmitted only if no send firewall is configured or the firewall accepted it', q is None, loc(s, n.ast),
-               path=pat.path_lines(q) if q else None, discr='send-firewall')
+
+    def passed_for(evx):
+        return pat.test_edge(lambda t, pol: (pol == 'F' and src(t) == fw) or (pol == 'T' and src(t).startswith(f'{fw}({evx}')))
+    if s is entry:
+        for n in tx:
+            q = pat.guarded_by(g, n, passed_for(ev))
+            chk.ob('d', s.ref, 'an event is transmitted only if no send firewall is configured or the firewall accepted it', q is None, loc(s, n.ast),
+                   path=pat.path_lines(q) if q else None, discr='send-firewall')
+    else:
+        # transmission lives in a helper: every call of the helper, anywhere in the node package, must have passed the firewall of this protocol
+        n_sites = 0
+        for f in repo.all_functions():
+            if not f.module.relpath.startswith('circuits/node/'):
+                continue
+            gf = None
+            for c in calls_in(f.node):
+                if isinstance(c.func, ast.Attribute) and c.func.attr == s.name and c.args:
+                    n_sites += 1
+                    gf = gf or f.cfg()
+                    inside = f.cls is cls and src(c.func.value) == 'self'
+                    okc = False
+                    for n in gf.node_for(c):
+                        okc = inside and pat.guarded_by(gf, n, passed_for(src(c.args[0]))) is None
+                    chk.ob('d', f.ref, f'`{src(c)[:60]}` puts an event on the wire only after the send firewall of the protocol accepted it (or none is configured)',
+                           okc, loc(f, c), discr=f'send-firewall:{f.qualname}')
+        chk.ob('d', s.ref, 'the transmitting helper is used', n_sites > 0, loc(s, s.node), discr='send-firewall', nontrivial=False)
     # every transmitted packet consumes a call id (the peer answers every event under its id)
     ids = [n for n in g.nodes if n.kind == 'stmt' and isinstance(n.ast, ast.Assign) and src(n.ast.value) == 'self.__nid']
     incs = [n for n in g.nodes if n.kind == 'stmt' and isinstance(n.ast, ast.AugAssign) and src(n.ast.target) == 'self.__nid' and isinstance(n.ast.op, ast.Add)]
@@ -483,30 +509,37 @@ def rule_k_l(repo, chk):
     chk.ob('k', rh.ref, 'a result is relayed only by the protocol that received the call', ok or not shared, loc(rh, rh.node), detail=None if ok else why,
            discr='relay-own-calls-only')
     # l: per-instance state
-    ini = need(_m(cls, 'init') or _m(cls, '__init__'), 'C19.l: Protocol has no init')
-    chk.touch(ini)
-    gi = ini.cfg()
-    n_attrs = 0
-    for st in cls.node.body:
-        if isinstance(st, ast.Assign) and len(st.targets) == 1 and isinstance(st.targets[0], ast.Name):
-            nm = st.targets[0].id
-            n_attrs += 1
-            if not _mutable_literal(st.value):
-                continue
-            mutated = any(isinstance(n, (ast.Subscript, ast.Attribute)) and src(n).startswith(f'self.{nm}') and isinstance(getattr(n, 'ctx', None), (ast.Store, ast.Del))
-                          and src(n) != f'self.{nm}' for f in cls.methods.values() for n in ast.walk(f.node)) or \
-                any(isinstance(c.func, ast.Attribute) and src(c.func.value) == f'self.{nm}' and c.func.attr in ('append', 'add', 'update', 'setdefault', 'pop', 'extend', 'remove', 'clear', 'appendleft')
-                    for f in cls.methods.values() for c in calls_in(f.node))
-            fresh = [n for n in gi.nodes if n.kind == 'stmt' and isinstance(n.ast, ast.Assign) and any(r == 'self' and a == nm and _mutable_literal(v) for r, a, v in pat.attr_store(n.ast))]
-            p = Q.escapes(gi, [gi.entry], lambda n: n in fresh, exits=('exit',)) if fresh else ['none']
-            chk.ob('l', f'{NODE_PROTOCOL}::Protocol.{nm}', f'`{nm}` is mutated in place, so every instance gets its own container in init()', (not mutated) or p is None,
-                   f'{NODE_PROTOCOL}:{st.lineno}', discr=f'per-instance:{nm}')
-    need(n_attrs >= 3, 'C19.l: the class-level state of Protocol (buffer, counter, table) was not found')
+    _per_instance(repo, chk, cls, NODE_PROTOCOL, 3)
+    _per_instance(repo, chk, repo.cls('circuits/node/node.py', 'Node'), 'circuits/node/node.py', 1)
+    _per_instance(repo, chk, repo.cls('circuits/node/server.py', 'Server'), 'circuits/node/server.py', 1)
     # the counter and the buffer are immutable values rebound through self (augmented assignment creates the instance attribute)
     for nm in ('__nid', '__buffer'):
         shared_write = [n for f in cls.methods.values() for n in ast.walk(f.node) if isinstance(n, ast.Attribute) and isinstance(n.ctx, ast.Store) and n.attr == nm
                         and src(n.value) not in ('self',)]
         chk.ob('l', f'{NODE_PROTOCOL}::Protocol.{nm}', f'`{nm}` is only written through the instance', not shared_write, NODE_PROTOCOL, discr=f'instance-write:{nm}')
+
+
+def _per_instance(repo, chk, cls, relpath, min_attrs):
+    if True:
+        ini = need(_m(cls, 'init') or _m(cls, '__init__'), f'C19.l: {cls.name} has no init')
+        chk.touch(ini)
+        gi = ini.cfg()
+        n_attrs = 0
+        for st in cls.node.body:
+            if isinstance(st, ast.Assign) and len(st.targets) == 1 and isinstance(st.targets[0], ast.Name):
+                nm = st.targets[0].id
+                n_attrs += 1
+                if not _mutable_literal(st.value):
+                    continue
+                mutated = any(isinstance(n, (ast.Subscript, ast.Attribute)) and src(n).startswith(f'self.{nm}') and isinstance(getattr(n, 'ctx', None), (ast.Store, ast.Del))
+                              and src(n) != f'self.{nm}' for f in cls.methods.values() for n in ast.walk(f.node)) or \
+                    any(isinstance(c.func, ast.Attribute) and src(c.func.value) == f'self.{nm}' and c.func.attr in ('append', 'add', 'update', 'setdefault', 'pop', 'extend', 'remove', 'clear', 'appendleft')
+                        for f in cls.methods.values() for c in calls_in(f.node))
+                fresh = [n for n in gi.nodes if n.kind == 'stmt' and isinstance(n.ast, ast.Assign) and any(r == 'self' and a == nm and _mutable_literal(v) for r, a, v in pat.attr_store(n.ast))]
+                p = Q.escapes(gi, [gi.entry], lambda n: n in fresh, exits=('exit',)) if fresh else ['none']
+                chk.ob('l', f'{relpath}::{cls.name}.{nm}', f'`{nm}` is mutated in place, so every instance gets its own container in init()', (not mutated) or p is None,
+                       f'{relpath}:{st.lineno}', discr=f'per-instance:{nm}')
+        need(n_attrs >= min_attrs, f'C19.l: the class-level state of {cls.name} was not found')
 
 
 def handler_decl_channel(f):
